@@ -94,6 +94,35 @@ def standin_constant_model(tier, seed):
                 break
         if violations:
             break
+    # one model object used for two cohorts whose feature columns differ in order / names: every prediction is that of a fresh model
+    if not violations:
+        c1 = pd.DataFrame([("s1", 60.0, 0.1, 0.8), ("s1", 65.0, 0.2, 0.7), ("s2", 70.0, 0.3, 0.6)], columns=["ID", "TIME", "MMSE", "ADAS"])
+        c2 = pd.DataFrame([("t1", 61.0, 0.55, 0.15), ("t1", 66.0, 0.45, 0.25), ("t2", 71.0, 0.35, 0.05)], columns=["ID", "TIME", "ADAS", "MMSE"])
+        c3 = pd.DataFrame([("u1", 62.0, 0.5), ("u1", 63.0, 0.6)], columns=["ID", "TIME", "OTHER"])
+        for kind in ("last", "last-known", "max", "mean"):
+            reused = model_factory("constant")
+            for cohort_df in (c1, c2, c3):
+                evals += 1
+                distinct.add(("reuse", kind, tuple(cohort_df.columns)))
+                try:
+                    with quiet():
+                        ip_r = reused.personalize(Data.from_dataframe(cohort_df), "constant_prediction", prediction_type=kind)
+                        fresh = model_factory("constant")
+                        ip_f = fresh.personalize(Data.from_dataframe(cohort_df), "constant_prediction", prediction_type=kind)
+                        sid = cohort_df["ID"].iloc[0]
+                        e_r = np.asarray(reused.estimate({sid: [64.0, 80.0]}, ip_r)[sid], dtype=float)
+                        e_f = np.asarray(fresh.estimate({sid: [64.0, 80.0]}, ip_f)[sid], dtype=float)
+                    same = ip_r._individual_parameters == ip_f._individual_parameters and e_r.shape == e_f.shape and np.allclose(e_r, e_f, equal_nan=True) \
+                        and list(reused.features) == list(fresh.features)
+                except Exception as e:
+                    same = False
+                    ip_r = ip_f = f"{type(e).__name__}: {str(e)[:80]}"
+                if not same:
+                    violations.append(dict(key=f"constant model ({kind}): a model object re-used on a cohort with other feature columns {list(cohort_df.columns[2:])} does not answer like a fresh model",
+                                           reused=str(ip_r if isinstance(ip_r, str) else ip_r._individual_parameters)[:200], fresh=str(ip_f if isinstance(ip_f, str) else ip_f._individual_parameters)[:200]))
+                    break
+            if violations:
+                break
     samples.append(dict(visits=[[70.5, 0.1, "nan"], [61.25, 0.71, 0.41]], kinds=["last", "last_known", "max", "mean"]))
     return dict(evaluations=evals, distinct_nontrivial=len(distinct),
                 rule="one evaluation = one (visit history, prediction type) through the real personalize + estimate; distinct = "
